@@ -72,4 +72,21 @@ def points (len : Nat) : List Bool → Nat → Nat → List (Nat × Nat)
     if f + b < len then (f, b) :: points len ss (if s then f + 1 else f) (if s then b else b + 1)
     else [(f, b)]
 
+/-- schedule steps of the driver protocol: `next`, `next_back`, `nth(1)` (two items from the front,
+or all that is left when fewer remain) -/
+inductive Step where
+  | f | b | n
+deriving DecidableEq, Repr
+
+/-- the points `(f, b)` visited by a schedule with `nth` steps -/
+def points3 (len : Nat) : List Step → Nat → Nat → List (Nat × Nat)
+  | [], f, b => [(f, b)]
+  | s :: ss, f, b =>
+    if f + b < len then
+      (f, b) :: (match s with
+        | .f => points3 len ss (f + 1) b
+        | .b => points3 len ss f (b + 1)
+        | .n => points3 len ss (f + min 2 (len - f - b)) b)
+    else [(f, b)]
+
 end Tv.C09
